@@ -307,6 +307,7 @@ pub fn family_d(_tier: Tier) -> Vec<Family> {
                 kind,
                 bigram,
                 astral_takes_nul: false,
+                default_line_pos: 0,
             },
             users: users.clone(),
             maps: maps.clone(),
@@ -355,6 +356,49 @@ pub fn family_d(_tier: Tier) -> Vec<Family> {
     let bs = Bigram { right, left, cost };
     let (nr, nl, t) = bs.table();
     mk("D/dual-K10-shared-rows", nr, nl, t, ConnKind::Dual, Some(bs));
+    drop(mk);
+    // non-square id spaces (more right ids than left ids and vice versa)
+    for (name, k, nr, nl, kind) in [("D/raw-K3-5x3", 3usize, 5usize, 3usize, ConnKind::Raw), ("D/dual-K9-3x5", 9, 3, 5, ConnKind::Dual), ("D/matrix-5x3", 0, 5, 3, ConnKind::Matrix)] {
+        let (conn, bigram) = if k == 0 {
+            (matrix_pattern(nr, nl, 1), None)
+        } else {
+            let b = lex_bigram(k, nr, nl);
+            (b.table().2, Some(b))
+        };
+        let fit = |rows: &Vec<Row>| -> Vec<Row> {
+            rows.iter()
+                .enumerate()
+                .map(|(i, r)| Row {
+                    left: (1 + (usize::from(r.left) + i) % (nl - 1)) as u16,
+                    right: (1 + (usize::from(r.right) + 2 * i) % (nr - 1)) as u16,
+                    ..r.clone()
+                })
+                .collect()
+        };
+        let rot = |n: usize| -> Vec<u16> { (1..n as u16).map(|i| if usize::from(i) + 1 < n { i + 1 } else { 1 }).collect() };
+        let rev = |n: usize| -> Vec<u16> { (1..n as u16).rev().collect() };
+        let idn = |n: usize| -> Vec<u16> { (1..n as u16).collect() };
+        out.push(Family {
+            name: name.to_string(),
+            base: RefDict {
+                cats: cats.clone(),
+                ranges: ranges.clone(),
+                unk: lex_unk_rows(nr, nl),
+                sys: fit(&rows),
+                user: None,
+                nr,
+                nl,
+                conn,
+                kind,
+                bigram,
+                astral_takes_nul: false,
+                default_line_pos: 0,
+            },
+            users: users.iter().map(fit).collect(),
+            maps: vec![(rot(nl), rev(nr)), (rev(nl), rot(nr)), (idn(nl), idn(nr)), (rot(nl), rot(nr))],
+            alphabet: vec!['a', 'b', 'c', ' '],
+        });
+    }
     out
 }
 
